@@ -308,7 +308,8 @@ def evaluate_expression(expr, options=None, locals_=None, builtins=True):
             elif bin_op == '*':
                 # number * number
                 if _is_number(left_value) and _is_number(right_value):
-                    return left_value * right_value
+                    # Numbers are floating point - an integer product must not become an arbitrary-precision integer
+                    return float(left_value) * right_value
 
             elif bin_op == '/':
                 # number / number
@@ -341,7 +342,8 @@ def evaluate_expression(expr, options=None, locals_=None, builtins=True):
             else: # bin_op == '**'
                 # number ** number
                 if _is_number(left_value) and _is_number(right_value):
-                    result = left_value ** right_value
+                    # Numbers are floating point - an integer power must not become an arbitrary-precision integer
+                    result = float(left_value) ** right_value
                     return result if not isinstance(result, complex) else None
 
         # Arithmetic errors (division by zero, overflow) yield null
